@@ -70,6 +70,9 @@ Theorem c12_dimension_refusals_exact : forall s o, (exists e, snd (dstep s o) = 
   | RUnlink => r_link (rd s) = None
   | SUnlink => s_link (sd s) = None
   | SSetLabels _ => s_link (sd s) <> None
+  | AppendRange tk lb un => sarg_bad lb = true \/ sarg_bad un = true \/ tk = TkBad \/ (exists l, tk = TkOk l /\ descends l = true)
+  | AppendSampled iv lb un off => (forall z, iv <> NmOk z) \/ sarg_bad lb = true \/ sarg_bad un = true \/ off = NmBad
+  | AppendSet l => l = TkBad
   | _ => False
   end.
 Proof. exact refusals. Qed.
